@@ -585,6 +585,8 @@ def main():
         try:
             info, fails, n = run_case(seed, idx)
             info2, fails2, n2 = run_smallimag_case(seed, idx)
+            for f in fails2:
+                f["info"] = info2
             fails = fails + fails2
             n += n2
             out["hist"]["si=%s" % info2["variant"]] = out["hist"].get("si=%s" % info2["variant"], 0) + 1
@@ -609,7 +611,7 @@ def main():
             out["samples"].append(info)
         for f in fails:
             f["idx"] = idx
-            f["info"] = info
+            f.setdefault("info", info)
             out["failures"].append(f)
     # keep the line well below a pipe buffer (the caller reads the pipe only after exit)
     out["n_failures"] = len(out["failures"])
